@@ -52,3 +52,24 @@ theorem root_of_two {bf : Rat} {g : Node} {a b : Box} (h : g.leaves = [a, b]) (h
     exact hk
 
 end PdfVerif.Layout
+
+namespace PdfVerif.Layout
+open PdfVerif PdfVerif.Gen.Layout
+
+/-- Every group node of the hierarchy, at any depth, is of the left-to-right class (`LTTextGroupLRTB`). -/
+def Node.groupsLRTB : Node → Prop
+  | .leaf _ => True
+  | .grp t _ l r => t = false ∧ l.groupsLRTB ∧ r.groupsLRTB
+
+theorem groupOK_lrtb {bf : Rat} {g : Node} (hok : GroupOK bf g) :
+    (∀ b ∈ g.leaves, b.vertical = false) → g.isVert = false ∧ g.groupsLRTB := by
+  induction hok with
+  | leaf b => intro h; exact ⟨h b (by simp [Node.leaves]), trivial⟩
+  | grp t bb l r _ _ _ ht _ ihl ihr =>
+    intro h
+    have hl := ihl (fun b hb => h b (by simp [Node.leaves, hb]))
+    have hr := ihr (fun b hb => h b (by simp [Node.leaves, hb]))
+    have : t = false := by rw [ht, hl.1, hr.1]; rfl
+    exact ⟨by simpa [Node.isVert] using this, this, hl.2, hr.2⟩
+
+end PdfVerif.Layout
